@@ -58,6 +58,9 @@ pub struct Params {
     /// (more than the 30 up to which `futures::try_join_all` keeps its simple strategy);
     /// no tape value is read when this is 0, so older tapes keep their meaning
     pub p_big_union: u32,
+    /// probability (1/1000, only consulted when `p_big_union` > 0) that a union gets 901..1100
+    /// members (beyond 30 x 30, where a two-level join of groups of 30 stops being flat)
+    pub p_giant_union: u32,
 }
 
 impl Default for Params {
@@ -94,6 +97,7 @@ impl Default for Params {
             tail_random: false,
             far_ids: 0,
             p_big_union: 0,
+            p_giant_union: 0,
         }
     }
 }
@@ -284,6 +288,12 @@ impl Params {
         self
     }
 
+    pub fn with_giant_unions(mut self, per_mille: u32) -> Self {
+        self.p_giant_union = per_mille;
+        self.tail_random = true;
+        self
+    }
+
     pub fn with_big_unions(mut self, per_mille: u32) -> Self {
         self.p_big_union = per_mille;
         self
@@ -401,7 +411,9 @@ impl Builder<'_> {
 
     fn new_req(&mut self, t: &mut Tape, from: Option<usize>, p_union: u32) -> Req {
         if t.chance(p_union, 1000) {
-            let k = if self.p.p_big_union > 0 && t.chance(self.p.p_big_union, 1000) {
+            let k = if self.p.p_giant_union > 0 && t.chance(self.p.p_giant_union, 1000) {
+                901 + t.below(200)
+            } else if self.p.p_big_union > 0 && t.chance(self.p.p_big_union, 1000) {
                 31 + t.below(12)
             } else {
                 2 + t.below(2)
